@@ -228,3 +228,79 @@ v("c26-twin-rename-unknown", "C26", VR,
   "        not_there = set(column_deletions).difference(source.column_names)\n        if not_there:\n            raise KeyError(\"dropping unknown columns \" + str(not_there))", expect="silent")
 v("c06-order_by-as-set", "C06", VR,
   "                and (order_by == self.order_by)\n", "                and (set(order_by) == set(self.order_by))\n")
+
+# ---------------------------------------------------------------- C20
+DMS = "data_model_space.py"
+v("c20-mem-insert-no-overwrite-assert", "C20", DMS,
+  "        assert self.data_model.is_appropriate_data_instance(value)\n        if not allow_overwrite:\n            assert key not in self.data_map.keys()\n",
+  "        assert self.data_model.is_appropriate_data_instance(value)\n")
+v("c20-mem-execute-no-freshness-loop", "C20", DMS,
+  "            key = f\"da_temp_{self.n_tmp}\"\n            while key in self.data_map.keys():\n                self.n_tmp = self.n_tmp + 1\n                key = f\"da_temp_{self.n_tmp}\"\n        assert isinstance(key, str)\n        assert isinstance(allow_overwrite, bool)\n        if not allow_overwrite:\n            assert key not in self.data_map.keys()\n        value = ops.eval",
+  "            key = f\"da_temp_{self.n_tmp}\"\n        assert isinstance(key, str)\n        assert isinstance(allow_overwrite, bool)\n        if not allow_overwrite:\n            assert key not in self.data_map.keys()\n        value = ops.eval")
+v("c20-mem-execute-store-before-eval", "C20", DMS,
+  "        value = ops.eval(data_map=self.data_map, data_model=self.data_model)\n        assert self.data_model.is_appropriate_data_instance(value)\n        self.data_map[key] = value\n",
+  "        self.data_map[key] = None\n        value = ops.eval(data_map=self.data_map, data_model=self.data_model)\n        assert self.data_model.is_appropriate_data_instance(value)\n        self.data_map[key] = value\n")
+v("c20-db-insert-guard-polarity", "C20", "db_space.py",
+  "        if not allow_overwrite:\n            assert key not in self.description_map.keys()\n        self.db_handle.insert_table(",
+  "        if allow_overwrite:\n            assert key not in self.description_map.keys()\n        self.db_handle.insert_table(")
+v("c20-db-execute-no-allow-assert", "C20", "db_space.py",
+  "        if key in self.description_map.keys():\n            assert allow_overwrite\n            self.remove(key)",
+  "        if key in self.description_map.keys():\n            self.remove(key)")
+v("c20-db-keys-from-autodrop-list", "C20", "db_space.py",
+  "        return set(self.description_map.keys())", "        return set(self.eligable_for_auto_drop_list)")
+v("c20-twin-if-raise", "C20", DMS,
+  "        assert self.data_model.is_appropriate_data_instance(value)\n        if not allow_overwrite:\n            assert key not in self.data_map.keys()\n",
+  "        assert self.data_model.is_appropriate_data_instance(value)\n        if (not allow_overwrite) and (key in self.data_map.keys()):\n            raise ValueError(\"key already present\")\n",
+  expect="silent")
+
+# ---------------------------------------------------------------- C24 / C25
+v("c24-intersect-iterates-b", "C24", "OrderedSet.py",
+  "    b = set(b)\n    return OrderedSet([v for v in a if v in b])", "    a = set(a)\n    return OrderedSet([v for v in b if v in a])")
+v("c24-diff-keeps-common", "C24", "OrderedSet.py",
+  "    a = OrderedSet([v for v in a if v not in b])", "    a = OrderedSet([v for v in a if v in b])")
+v("c24-add-moves-to-end", "C24", "OrderedSet.py",
+  "        self.impl[elem] = None\n", "        self.impl[elem] = None\n        self.impl.move_to_end(elem)\n")
+v("c24-add-pop-then-store", "C24", "OrderedSet.py",
+  "        self.impl[elem] = None\n", "        self.impl.pop(elem, None)\n        self.impl[elem] = None\n")
+v("c24-union-others-first", "C24", "OrderedSet.py",
+  "        res = OrderedSet()\n        for k in self.impl.keys():\n            res.add(k)\n        for other in args:\n            assert not isinstance(other, str)  # treat string as atomic, not iterable\n            for k in other:\n                if k not in res:\n                    res.add(k)\n        return res",
+  "        res = OrderedSet()\n        for other in args:\n            assert not isinstance(other, str)  # treat string as atomic, not iterable\n            for k in other:\n                if k not in res:\n                    res.add(k)\n        for k in self.impl.keys():\n            res.add(k)\n        return res")
+v("c24-twin-intersect-loop-var", "C24", "OrderedSet.py",
+  "    b = set(b)\n    return OrderedSet([v for v in a if v in b])", "    b_set = set(b)\n    return OrderedSet([item for item in a if item in b_set])", expect="silent")
+v("c25-key-drops-sql", "C25", "eval_cache.py", "        sql=sql,\n        dat_map_list", "        sql=\"\",\n        dat_map_list")
+v("c25-hash-head-only", "C25", "eval_cache.py", "        .pd.util.hash_pandas_object(d)\n", "        .pd.util.hash_pandas_object(d.head(100))\n")
+v("c25-hash-no-index", "C25", "eval_cache.py", "        .pd.util.hash_pandas_object(d)\n", "        .pd.util.hash_pandas_object(d, index=False)\n")
+v("c25-hash-drops-columns", "C25", "eval_cache.py", "    return f\"{d.shape}_{list(d.columns)}_{hash_str}\"", "    return f\"{d.shape}_{hash_str}\"")
+v("c25-get-no-copy", "C25", "eval_cache.py", "        return res.copy()", "        return res")
+v("c25-store-no-copy", "C25", "eval_cache.py", "        self.result_cache[op_key] = res.copy()", "        self.result_cache[op_key] = res")
+v("c25-key-first-table-only", "C25", "eval_cache.py",
+  "for k in data_map_keys]),\n    )", "for k in data_map_keys[:1]]),\n    )")
+v("c25-twin-sorted", "C25", "eval_cache.py",
+  "    data_map_keys = list(data_map.keys())\n    data_map_keys.sort()\n", "    data_map_keys = sorted(data_map.keys())\n", expect="silent")
+
+# ---------------------------------------------------------------- C22
+DS = "data_schema.py"
+v("c22-check-return-ignores-switch", "C22", DS,
+  "    def check_return(self, *, fname: str, return_value) -> None:\n        if not SchemaCheckSwitch().is_on():\n            return\n",
+  "    def check_return(self, *, fname: str, return_value) -> None:\n")
+v("c22-check-args-switch-polarity", "C22", DS,
+  "    def check_args(self, *, arg_names: List[str], fname: str, args, kwargs) -> None:\n        if not SchemaCheckSwitch().is_on():\n            return",
+  "    def check_args(self, *, arg_names: List[str], fname: str, args, kwargs) -> None:\n        if SchemaCheckSwitch().is_on():\n            return")
+v("c22-wrapped-returns-copy", "C22", DS,
+  "            return type_check_return_value\n", "            return type_check_return_value.copy()\n")
+v("c22-wrapped-rebinds", "C22", DS,
+  "            type_check_self.check_return(\n                fname=type_check_fn_name, return_value=type_check_return_value\n            )\n            return type_check_return_value",
+  "            type_check_self.check_return(\n                fname=type_check_fn_name, return_value=type_check_return_value\n            )\n            type_check_return_value = pd.DataFrame(type_check_return_value)\n            return type_check_return_value")
+v("c22-set-normalisation-reverted", "C22", DS,
+  "        new_set = {vi for vi in new_set if vi is not None}", "        new_set = {vi for vi in v if v is not None}")
+v("c22-null-cells-checked", "C22", DS,
+  "                        if not _is_null(vi):\n                            msg_i = self._check_spec(\n                                expected_type=spec_i, observed_value=vi\n                            )\n                            if msg_i is not None:\n                                msgs.append(f\" column '{col_name}' {msg_i}\")\n                                break",
+  "                        msg_i = self._check_spec(\n                            expected_type=spec_i, observed_value=vi\n                        )\n                        if msg_i is not None:\n                            msgs.append(f\" column '{col_name}' {msg_i}\")\n                            break")
+v("c22-raises-valueerror", "C22", DS,
+  "            raise TypeError(f\"{fname}() return value: {msg}\", return_value)", "            raise ValueError(f\"{fname}() return value: {msg}\", return_value)")
+v("c22-missing-column-silent", "C22", DS,
+  "            if col_name not in col_set:\n                msgs.append(f\"missing required column '{col_name}'\")\n            else:\n                if (spec_i is not None) and (d.shape[0] > 0):",
+  "            if col_name in col_set:\n                if (spec_i is not None) and (d.shape[0] > 0):")
+v("c22-twin-switch-var", "C22", DS,
+  "    def check_return(self, *, fname: str, return_value) -> None:\n        if not SchemaCheckSwitch().is_on():\n            return\n",
+  "    def check_return(self, *, fname: str, return_value) -> None:\n        if SchemaCheckSwitch().is_on() is False:\n            return\n", expect="silent")
